@@ -43,7 +43,50 @@ InstId string_to_inst_id(const char* s, size_t len) noexcept {
     return BaseInst::kIdNone;
   }
 
-  return InstNameUtils::find_instruction(s, len, InstDB::_inst_name_index_table, InstDB::_inst_name_string_table, InstDB::_inst_name_index);
+  // Instruction ids form two blocks that are sorted by name separately - general purpose instructions followed by SIMD
+  // instructions. A span of `_inst_name_index` starts in the first block and ends in the second one when a letter is used
+  // by both, so the part of the span that lies in each block has to be searched on its own.
+  uint32_t prefix = uint32_t(uint8_t(s[0])) - uint32_t('a');
+  if (ASMJIT_UNLIKELY(prefix > uint32_t('z') - uint32_t('a'))) {
+    return BaseInst::kIdNone;
+  }
+
+  InstNameIndex index = InstDB::_inst_name_index;
+  uint32_t start = index.data[prefix].start;
+  uint32_t end = index.data[prefix].end;
+  if (ASMJIT_UNLIKELY(!start)) {
+    return BaseInst::kIdNone;
+  }
+
+  uint32_t split = Support::min<uint32_t>(Support::max<uint32_t>(start, uint32_t(Inst::kIdAbs_v)), end);
+
+  InstId inst_id = BaseInst::kIdNone;
+  if (start < split) {
+    index.data[prefix].end = uint16_t(split);
+    inst_id = InstNameUtils::find_instruction(s, len, InstDB::_inst_name_index_table, InstDB::_inst_name_string_table, index);
+  }
+
+  if (inst_id == BaseInst::kIdNone && split < end) {
+    index.data[prefix].start = uint16_t(split);
+    index.data[prefix].end = uint16_t(end);
+    inst_id = InstNameUtils::find_instruction(s, len, InstDB::_inst_name_index_table, InstDB::_inst_name_string_table, index);
+  }
+
+  // A few ids are not ordered by name within their block (for example 'extr' precedes 'eret'), which a binary search cannot
+  // cope with - names it did not find are looked up in the whole span of the letter.
+  if (inst_id == BaseInst::kIdNone) {
+    StringTmp<32> name;
+    for (uint32_t i = start; i < end; i++) {
+      name.clear();
+      if (InstNameUtils::decode(InstDB::_inst_name_index_table[i], InstStringifyOptions::kNone, InstDB::_inst_name_string_table, name) == Error::kOk &&
+          name.size() == len && memcmp(name.data(), s, len) == 0) {
+        inst_id = InstId(i);
+        break;
+      }
+    }
+  }
+
+  return inst_id;
 }
 #endif // !ASMJIT_NO_TEXT
 
